@@ -18,8 +18,8 @@ from harness.corr import c19_util as U
 
 ID = "C19"
 DRIVER = "drv_c19"
-LEAN_TARGETS = ["PharmpyProofs.C19.Properties", "drv_c19"]
-PROPERTIES = ["PharmpyProofs/C19/Properties.lean"]
+LEAN_TARGETS = ["PharmpyProofs.C19.Properties", "PharmpyProofs.C19.PercentileProperties", "drv_c19"]
+PROPERTIES = ["PharmpyProofs/C19/Properties.lean", "PharmpyProofs/C19/PercentileProperties.lean"]
 LEAN_SOURCES = ["PharmpyModel/C19/*.lean", "PharmpyProofs/C19/*.lean", "Drivers/C19.lean"]
 TIME_LIMIT = {"quick": 900, "thorough": 3000}
 CASE_CPU_LIMIT = 60
@@ -33,7 +33,9 @@ RULE = ("kind=rank: 0-8 candidates + base; dummy models (any parameter count, ra
         "or base); for real models sharing a data set also tools.common.create_results (final model), with the base model made "
         "ineligible (NaN OFV / failing strictness) in 12 % of the cases. kind=lrt: cutoff/test/p_value/best_of_many on dummy models. kind=crit: calculate_aic/bic and "
         "_categorize_parameters on every pool model. kind=stats: bootstrap / cdd / shrinkage statistics on <= 50 "
-        "replicate vectors of short decimals, and delta-method standard errors of random expressions (+ - * / ^ sqrt log exp "
+        "replicate vectors of short decimals (bootstrap: in ~42 % of the cases with faults in single replicates - failed replicates "
+        "with NaN estimates and NaN OFV, single missing estimates, missing OFVs - and in 40 % with a dOFV step whose results are "
+        "partially None / NaN; parameter table and OFV table are both checked), and delta-method standard errors of random expressions (+ - * / ^ sqrt log exp "
         "over 1-4 of 2-6 parameters) with exact covariance S(LL^T+D)S; parameter labels are pheno-style, NONMEM-style "
         "(THETA(1), OMEGA(1,1)) or generic names in model order or an arbitrary permutation (lexically sorted only by chance), "
         "and the label order of the individual inputs (replicate Series, original estimates, base estimate, covariance "
